@@ -10,7 +10,7 @@ git -C /repo worktree add -q "$W" HEAD || { echo "WORKTREE-FAIL"; exit 3; }
 trap 'git -C /repo worktree remove --force "$W" >/dev/null 2>&1; git -C /repo worktree prune' EXIT
 run() { # id prop patch
   echo "$1" | grep -Eq "$filter" || return
-  git -C "$W" checkout -q -- . ; git -C "$W" clean -fdq
+  git -C "$W" reset -q --hard HEAD; git -C "$W" clean -fdq
   P=$(readlink -f "$3")
   if ! git -C "$W" apply --3way "$P" >/dev/null 2>&1 && ! git -C "$W" apply "$P" >/dev/null 2>&1; then echo "$1 $2 PATCH-DOES-NOT-APPLY"; return; fi
   git -C "$W" reset -q
